@@ -5,6 +5,7 @@
 // reference), and the same threads workload in the ThreadSanitizer build (reports are parsed by the supervisor).
 #include "vlib.hpp"
 #include "vsmf.hpp"
+#include "vconv.hpp"
 #include <pthread.h>
 #include <sched.h>
 #include <atomic>
@@ -35,15 +36,19 @@ static const std::vector<uint8_t> &c14_bank()
 static void harness_init() { default_bank(); c14_bank(); }
 
 // ---------------------------------------------------------------------------------------------
-// fresh C++ heap memory is filled with a selectable pattern (not in sanitizer builds, which own the allocator):
+// fresh heap memory (operator new and malloc) is filled with a selectable pattern (not in sanitizer builds, which own the allocator):
 // state that an emulator core reads before writing it shows as a difference between two replays
 // ---------------------------------------------------------------------------------------------
 #if !defined(V_ASAN) && !defined(V_TSAN)
-static volatile int g_fill = -1;     // -1: leave as malloc returns it
-void *operator new(size_t n) { void *p = malloc(n ? n : 1); if(!p) throw std::bad_alloc(); if(g_fill >= 0) memset(p, g_fill, n); return p; }
-void *operator new[](size_t n) { void *p = malloc(n ? n : 1); if(!p) throw std::bad_alloc(); if(g_fill >= 0) memset(p, g_fill, n); return p; }
-void *operator new(size_t n, const std::nothrow_t &) noexcept { void *p = malloc(n ? n : 1); if(p && g_fill >= 0) memset(p, g_fill, n); return p; }
-void *operator new[](size_t n, const std::nothrow_t &) noexcept { void *p = malloc(n ? n : 1); if(p && g_fill >= 0) memset(p, g_fill, n); return p; }
+static volatile int g_fill = -1;     // -1: leave as malloc returns it; 0..255: that byte; 256: a byte sequence that reads as MIDI events
+static inline void v_fill(void *p, size_t n) { if(g_fill < 256) { memset(p, g_fill, n); return; } static const unsigned char pat[4] = {0x91, 0x45, 0x64, 0x08}; unsigned char *q = (unsigned char *)p; for(size_t i = 0; i < n; i++) q[i] = pat[i & 3]; }
+void *operator new(size_t n) { void *p = malloc(n ? n : 1); if(!p) throw std::bad_alloc(); if(g_fill >= 0) v_fill(p, n); return p; }
+void *operator new[](size_t n) { void *p = malloc(n ? n : 1); if(!p) throw std::bad_alloc(); if(g_fill >= 0) v_fill(p, n); return p; }
+void *operator new(size_t n, const std::nothrow_t &) noexcept { void *p = malloc(n ? n : 1); if(p && g_fill >= 0) v_fill(p, n); return p; }
+void *operator new[](size_t n, const std::nothrow_t &) noexcept { void *p = malloc(n ? n : 1); if(p && g_fill >= 0) v_fill(p, n); return p; }
+// the C allocator too (file buffers of the loaders, the cores written in C): a thin wrapper over glibc's own entry point
+extern "C" void *__libc_malloc(size_t);
+extern "C" void *malloc(size_t n) { void *p = __libc_malloc(n); if(p && g_fill >= 0) v_fill(p, n); return p; }
 void operator delete(void *p) noexcept { free(p); }
 void operator delete[](void *p) noexcept { free(p); }
 void operator delete(void *p, size_t) noexcept { free(p); }
@@ -67,6 +72,18 @@ struct Hist { long rate; int emu; int chips; int chiptype; int pcmrate; std::vec
 // track cut between the two data bytes of its last event (such a file must be refused, identically every time)
 static std::vector<uint8_t> c14_song(Rng &r)
 {
+    if(r.chance(0.25))
+    {   // an XMI file (the loader converts it through a scratch buffer); every other one ends without the End-of-Track event, which the
+        // loader accepts: what is played must still be the file's own events
+        XmiFile x; XmiSong sg = gen_xmi_song(r, 2, 12);
+        if(r.chance(0.5) && sg.evnt.size() >= 3) sg.evnt.resize(sg.evnt.size() - 3);
+        std::vector<uint8_t> info; put_le(info, 1, 2);
+        std::vector<uint8_t> xdir; put_str(xdir, "XDIR"); iff_chunk(xdir, "INFO", info);
+        std::vector<uint8_t> cat; put_str(cat, "XMID");
+        std::vector<uint8_t> form; put_str(form, "XMID"); iff_chunk(form, "EVNT", sg.evnt); iff_chunk(cat, "FORM", form);
+        iff_chunk(x.bytes, "FORM", xdir); iff_chunk(x.bytes, "CAT ", cat);
+        return x.bytes;
+    }
     Song sg; sg.format = 1; sg.division = 96; sg.running_status = r.chance(0.5);
     int nt = r.range(2, 4); sg.tracks.resize((size_t)nt);
     static const int keys[] = {60, 62, 64, 65};
@@ -160,6 +177,7 @@ static Hist gen_hist(Rng &r, int force_emu = -1, double song_p = 0.35)
         size_t at = r.below((uint32_t)h.ops.size());
         HOp ld; ld.kind = 15; ld.a = ld.c = 0; ld.b = r.chance(0.5) ? 1 : 0;      // b: looping on (count 2) for this song
         std::vector<HOp> ins(1, ld);
+        if(h.song.size() > 4 && memcmp(h.song.data(), "FORM", 4) == 0 && r.chance(0.7)) { HOp tk; tk.kind = 19; tk.a = r.range(200, 600); tk.b = tk.c = 0; ins.push_back(tk); }   // XMI songs are usually played to their end (tick-driven, cheap)
         const bool spread = song_p >= 1.0;       // forced sequencer threads play in more, scattered blocks: the sequencers of several threads overlap
         for(int i = 0, n = spread ? r.range(4, 8) : r.range(1, 4); i < n; i++) { HOp pl; pl.kind = 16; pl.a = slow ? r.range(50, 200) : r.range(100, 900); pl.b = pl.c = 0; if(!spread) ins.push_back(pl); else { size_t lo = at + 1 + (size_t)i; h.ops.insert(h.ops.begin() + (long)std::min(h.ops.size(), lo - 1 + r.below((uint32_t)(h.ops.size() - std::min(h.ops.size(), at) + 1))), pl); } }
         h.ops.insert(h.ops.begin() + (long)at, ins.begin(), ins.end());
@@ -306,7 +324,7 @@ static void run_case(Case &c)
     {
         static const int emus[] = {0, 1, 2, 3, 4, 5, 6, 8};
         Hist h = gen_hist(r, emus[c.k % 8]);
-        int f1 = can_fill ? 0x00 : -1, f2 = can_fill ? (int)r.pick((const int[]){0xFF, 0xA5, 0x7F}) : -1;
+        int f1 = can_fill ? 0x00 : -1, f2 = can_fill ? (int)r.pick((const int[]){0xFF, 0xA5, 0x7F, 256}) : -1;
         Out a = run_alone(h, f1), b = run_alone(h, f2);
         std::string why;
         if(a.bad_returns || b.bad_returns) { c.inconclusive = true; count("inconclusive_history_rejected"); }
